@@ -37,7 +37,7 @@ class Known:
 
     def matches(self, v):
         for k, want in self.fields.items():
-            if str(v.get(k)) != want:
+            if want != "*" and str(v.get(k)) != want:
                 return False
         for k, want in self.where.items():
             have = v["features"].get(k)
